@@ -359,11 +359,18 @@ func (s *sim) judgeDelivered(completed []*item, before []hsPhase) {
 		// O7 handshake liveness
 		// (a disconnect nobody asked for - no Disconnect call, no remote
 		// close, no timeout yet - is the peer refusing the correct remote)
-		unprovoked := s.discStep >= 0 && s.discCause == "" && !s.discIssued && !s.remoteClosed
+		unprovoked := s.discStep >= 0 && s.discCause == "protocol" && !s.remoteClosed
 		if it.kind == itVerack && ph == phExpectVerack && after == phEstablished && s.associated && s.quiet() &&
 			(s.discStep < 0 || unprovoked) && time.Since(s.assocAt) < 25*time.Second && s.conn.PendingRead() == 0 {
 			s.hsJudged = true
-			if !s.established() || !s.p.Connected() || !s.p.VersionKnown() || !s.p.VerAckReceived() {
+			bad := !s.established() || !s.p.Connected() || !s.p.VersionKnown() || !s.p.VerAckReceived()
+			if unprovoked {
+				// the peer hung up on its own: only a handshake it never
+				// completed is judged here (a later item of the script may
+				// have been a reason to disconnect afterwards)
+				bad = !s.established()
+			}
+			if bad {
 				r.Violate(prop, "O7-handshake-liveness", "", "a correct remote sent version and verack %s after connecting, no fault was active, but OnVerAck fired=%v Connected=%v VersionKnown=%v VerAckReceived=%v (script %s)",
 					time.Since(s.assocAt), s.established(), s.p.Connected(), s.p.VersionKnown(), s.p.VerAckReceived(), s.scriptString())
 			}
